@@ -106,7 +106,7 @@ def row_maps(tracedir, system):
     for r, name in enumerate(tr):
         if name in key:
             tmap[r + 1] = key[name]
-    looms = sorted(set(c["loom"] for c in system["cpus"]), key=lambda l: loom_name(l))
+    looms = system.get("loom_order") or sorted(set(c["loom"] for c in system["cpus"]), key=lambda l: loom_name(l))
     lrank = {l: k for k, l in enumerate(looms)}
     ckey = {}
     for j, c in enumerate(system["cpus"]):
